@@ -294,7 +294,7 @@ func (g *G) Model(o ModelOpts) *rm.Model {
 		case x < 72:
 			return distinct(rm.Union, 2+g.Intn(2))
 		case x < 86:
-			return distinct(rm.Intersection, 2)
+			return distinct(rm.Intersection, 2+g.Intn(2))
 		default:
 			if !o.Exclusion {
 				return uleaf(self, res, depth)
@@ -1010,4 +1010,211 @@ func (g *G) WildcardTuples(m *rm.Model, p float64) []rm.Tuple {
 		}
 	}
 	return out
+}
+
+// GradedSets is a directed shape: one relation combines three or four operands with one set
+// operator, and the operands' result sets over six to nine objects have clearly different sizes
+// (an evaluator that orders operands by size, probes the smallest against the others, or stops at
+// the first empty one sees every ordering of those sizes). Operands are direct relations, computed
+// aliases of them or tuple-to-usersets over a one-parent tupleset.
+func (g *G) GradedSets() (*rm.Model, []rm.Tuple, []Request) {
+	n := 3 + g.Intn(2)
+	doc := &rm.TypeDef{Name: "doc"}
+	m := &rm.Model{Types: []*rm.TypeDef{{Name: "user"}, doc}}
+	doc.Relations = append(doc.Relations, &rm.Relation{Name: "parent", Rewrite: &rm.Rewrite{Kind: rm.This}, Restrictions: []rm.Restriction{{Type: "doc"}}})
+	var ops []*rm.Rewrite
+	for i := 0; i < n; i++ {
+		x := fmt.Sprintf("x%d", i)
+		res := []rm.Restriction{{Type: "user"}}
+		if g.Chance(0.15) {
+			res = append(res, rm.Restriction{Type: "user", Wildcard: true})
+		}
+		doc.Relations = append(doc.Relations, &rm.Relation{Name: x, Rewrite: &rm.Rewrite{Kind: rm.This}, Restrictions: res})
+		switch g.Intn(4) {
+		case 0:
+			p := fmt.Sprintf("p%d", i)
+			doc.Relations = append(doc.Relations, &rm.Relation{Name: p, Rewrite: &rm.Rewrite{Kind: rm.Computed, Relation: x}})
+			ops = append(ops, &rm.Rewrite{Kind: rm.Computed, Relation: p})
+		case 1:
+			ops = append(ops, &rm.Rewrite{Kind: rm.TTU, Tupleset: "parent", Relation: x})
+		default:
+			ops = append(ops, &rm.Rewrite{Kind: rm.Computed, Relation: x})
+		}
+	}
+	var rw *rm.Rewrite
+	switch k := g.Intn(10); {
+	case k < 6:
+		rw = &rm.Rewrite{Kind: rm.Intersection, Children: ops}
+	case k < 8:
+		rw = &rm.Rewrite{Kind: rm.Difference, Children: []*rm.Rewrite{{Kind: rm.Intersection, Children: ops[:n-1]}, ops[n-1]}}
+	default:
+		rw = &rm.Rewrite{Kind: rm.Intersection, Children: []*rm.Rewrite{{Kind: rm.Union, Children: ops[:2]}, ops[2], ops[n-1]}}
+		if n == 3 {
+			rw = &rm.Rewrite{Kind: rm.Union, Children: []*rm.Rewrite{{Kind: rm.Intersection, Children: ops[:2]}, ops[2]}}
+		}
+	}
+	doc.Relations = append(doc.Relations, &rm.Relation{Name: "r", Rewrite: rw})
+	nObj := 6 + g.Intn(4)
+	dens := []float64{0.95, 0.7, 0.45, 0.2}
+	g.R.Shuffle(len(dens), func(i, j int) { dens[i], dens[j] = dens[j], dens[i] })
+	var tuples []rm.Tuple
+	for o := 0; o < nObj; o++ {
+		// every object is its own parent's child: doc:gK#parent@doc:hK, and the operand tuples of a
+		// tuple-to-userset operand live on doc:hK
+		tuples = append(tuples, rm.Tuple{Obj: fmt.Sprintf("doc:g%d", o), Rel: "parent", User: fmt.Sprintf("doc:h%d", o)})
+	}
+	for i := 0; i < n; i++ {
+		on := "g"
+		if ops[i].Kind == rm.TTU {
+			on = "h"
+		}
+		for o := 0; o < nObj; o++ {
+			for _, u := range []string{"a", "b"} {
+				if g.Chance(dens[i]) {
+					tuples = append(tuples, rm.Tuple{Obj: fmt.Sprintf("doc:%s%d", on, o), Rel: fmt.Sprintf("x%d", i), User: "user:" + u})
+				}
+			}
+		}
+		if len(m.Rel("doc", fmt.Sprintf("x%d", i)).Restrictions) > 1 && g.Chance(0.5) {
+			tuples = append(tuples, rm.Tuple{Obj: fmt.Sprintf("doc:%s%d", on, g.Intn(nObj)), Rel: fmt.Sprintf("x%d", i), User: "user:*"})
+		}
+	}
+	var reqs []Request
+	for _, u := range []string{"a", "b", "c"} {
+		reqs = append(reqs, Request{Kind: "listobjects", Type: "doc", Rel: "r", User: "user:" + u})
+	}
+	for i := 0; i < n; i++ {
+		if g.Chance(0.3) {
+			reqs = append(reqs, Request{Kind: "listobjects", Type: "doc", Rel: fmt.Sprintf("x%d", i), User: "user:a"})
+		}
+	}
+	return m, tuples, reqs
+}
+
+// LayeredSameName is a directed shape: three or four object types in layers, every one defining
+// relations with the SAME names ("viewer", "can_read", tuplesets "parent" and "container") but
+// with rewrites of different depth, connected by tuple-to-usersets that point at deeper layers.
+// A sub-problem dispatched to another type must be planned with that type's rewrite, not with
+// the rewrite the request started from.
+func (g *G) LayeredSameName() (*rm.Model, []rm.Tuple, []Request) {
+	k := 3 + g.Intn(2)
+	m := &rm.Model{Types: []*rm.TypeDef{{Name: "user"}, {Name: "team", Relations: []*rm.Relation{
+		{Name: "member", Rewrite: &rm.Rewrite{Kind: rm.This}, Restrictions: []rm.Restriction{{Type: "user"}}}}}}}
+	ln := func(i int) string { return fmt.Sprintf("l%d", i) }
+	ttu := func(ts string) *rm.Rewrite { return &rm.Rewrite{Kind: rm.TTU, Tupleset: ts, Relation: "viewer"} }
+	this := &rm.Rewrite{Kind: rm.This}
+	targets := make([]map[string][]string, k)
+	for i := 0; i < k; i++ {
+		td := &rm.TypeDef{Name: ln(i)}
+		targets[i] = map[string][]string{}
+		leaf := i == k-1
+		var direct []rm.Restriction
+		switch g.Intn(3) {
+		case 0:
+			direct = []rm.Restriction{{Type: "user"}}
+		case 1:
+			direct = []rm.Restriction{{Type: "team", Relation: "member"}}
+		default:
+			direct = []rm.Restriction{{Type: "user"}, {Type: "team", Relation: "member"}}
+		}
+		if leaf {
+			td.Relations = append(td.Relations,
+				&rm.Relation{Name: "viewer", Rewrite: this, Restrictions: direct},
+				&rm.Relation{Name: "can_read", Rewrite: &rm.Rewrite{Kind: rm.Computed, Relation: "viewer"}})
+			m.Types = append(m.Types, td)
+			continue
+		}
+		for _, ts := range []string{"parent", "container"} {
+			n := 1 + g.Intn(2)
+			set := map[string]bool{}
+			for j := 0; j < n; j++ {
+				set[ln(i+1+g.Intn(k-1-i))] = true
+			}
+			var res []rm.Restriction
+			for j := i + 1; j < k; j++ {
+				if set[ln(j)] {
+					res = append(res, rm.Restriction{Type: ln(j)})
+					targets[i][ts] = append(targets[i][ts], ln(j))
+				}
+			}
+			td.Relations = append(td.Relations, &rm.Relation{Name: ts, Rewrite: this, Restrictions: res})
+		}
+		var vrw *rm.Rewrite
+		var vres []rm.Restriction
+		switch g.Intn(5) {
+		case 0:
+			vrw, vres = this, direct
+		case 1:
+			vrw = ttu("parent")
+		case 2:
+			vrw, vres = &rm.Rewrite{Kind: rm.Union, Children: []*rm.Rewrite{this, ttu("parent")}}, direct
+		case 3:
+			vrw = &rm.Rewrite{Kind: rm.Union, Children: []*rm.Rewrite{ttu("parent"), ttu("container")}}
+		default:
+			vrw = ttu("container")
+		}
+		var crw *rm.Rewrite
+		switch g.Intn(4) {
+		case 0:
+			crw = &rm.Rewrite{Kind: rm.Computed, Relation: "viewer"}
+		case 1:
+			crw = ttu("container")
+		case 2:
+			crw = &rm.Rewrite{Kind: rm.Union, Children: []*rm.Rewrite{{Kind: rm.Computed, Relation: "viewer"}, ttu("container")}}
+		default:
+			crw = &rm.Rewrite{Kind: rm.Union, Children: []*rm.Rewrite{{Kind: rm.Computed, Relation: "viewer"}, ttu("parent"), ttu("container")}}
+		}
+		td.Relations = append(td.Relations,
+			&rm.Relation{Name: "viewer", Rewrite: vrw, Restrictions: vres},
+			&rm.Relation{Name: "can_read", Rewrite: crw})
+		m.Types = append(m.Types, td)
+	}
+	var tuples []rm.Tuple
+	seen := map[string]bool{}
+	add := func(t rm.Tuple) {
+		if !seen[t.Key()] {
+			seen[t.Key()] = true
+			tuples = append(tuples, t)
+		}
+	}
+	for _, id := range objIDs[:2] {
+		for _, u := range userIDs {
+			if g.Chance(0.4) {
+				add(rm.Tuple{Obj: "team:" + id, Rel: "member", User: "user:" + u})
+			}
+		}
+	}
+	for i := 0; i < k; i++ {
+		for _, id := range objIDs {
+			o := ln(i) + ":" + id
+			for _, ts := range []string{"parent", "container"} {
+				if tt := targets[i][ts]; len(tt) > 0 && g.Chance(0.75) {
+					add(rm.Tuple{Obj: o, Rel: ts, User: Pick(g, tt) + ":" + Pick(g, objIDs)})
+				}
+			}
+			for _, r := range m.Rel(ln(i), "viewer").Restrictions {
+				if !g.Chance(0.35) {
+					continue
+				}
+				if r.Relation != "" {
+					add(rm.Tuple{Obj: o, Rel: "viewer", User: "team:" + Pick(g, objIDs[:2]) + "#member"})
+				} else {
+					add(rm.Tuple{Obj: o, Rel: "viewer", User: "user:" + Pick(g, userIDs)})
+				}
+			}
+		}
+	}
+	var reqs []Request
+	for i := 0; i < 12; i++ {
+		l := g.Intn(k)
+		if g.Chance(0.5) {
+			l = 0
+		}
+		rel := "can_read"
+		if g.Chance(0.3) {
+			rel = "viewer"
+		}
+		reqs = append(reqs, Request{Kind: "check", Obj: ln(l) + ":" + Pick(g, objIDs), Rel: rel, User: "user:" + Pick(g, userIDs)})
+	}
+	return m, tuples, reqs
 }
